@@ -3,7 +3,7 @@ CONSTANTS
   MaxLen = 6
   MaxDepth = 3
   Conds = {"T", "F", "V", "N", "R"}
-  Kinds = {"if", "elif", "ifdef", "ifndef", "elifdef", "elifndef", "else", "endif", "text", "def0", "def1", "undef", "warn", "err", "inc", "inc2", "push", "pop"}
+  Kinds = {"if", "elif", "ifdef", "ifndef", "elifdef", "elifndef", "else", "endif", "text", "def0", "def1", "undef", "warn", "err", "inc", "inc2", "push", "pop", "noise"}
   MinDump = 6
 INVARIANT Refines
 INVARIANT ClosedNormal
